@@ -242,8 +242,10 @@ impl Debugger {
                 let brkpt =
                     Breakpoint::new_temporary(debug_info.pathname(), ret_addr, location.pid);
                 self.breakpoints.add_and_enable(brkpt)?;
-                self.continue_execution()?;
+                // remove the temporary breakpoint even if continue fails
+                let continue_result = self.continue_execution();
                 self.remove_breakpoint(Address::Relocated(ret_addr))?;
+                continue_result?;
             }
         }
 
@@ -349,7 +351,11 @@ impl Debugger {
             }
         }
 
-        step_over_breakpoints
+        // resolve the return address before any temporary breakpoint is installed,
+        // so a failure here cannot leave them behind
+        let return_addr = self.debugee.return_addr(current_location.pid)?;
+
+        let mut install_result = step_over_breakpoints
             .into_iter()
             .try_for_each(|load_addr| {
                 self.breakpoints
@@ -359,25 +365,31 @@ impl Debugger {
                         current_location.pid,
                     ))
                     .map(|_| ())
-            })?;
+            });
 
-        let return_addr = self.debugee.return_addr(current_location.pid)?;
-        if let Some(ret_addr) = return_addr
+        if install_result.is_ok()
+            && let Some(ret_addr) = return_addr
             && self.breakpoints.get_enabled(ret_addr).is_none()
         {
-            self.breakpoints.add_and_enable(Breakpoint::new_temporary(
-                dwarf.pathname(),
-                ret_addr,
-                current_location.pid,
-            ))?;
+            install_result = self
+                .breakpoints
+                .add_and_enable(Breakpoint::new_temporary(
+                    dwarf.pathname(),
+                    ret_addr,
+                    current_location.pid,
+                ))
+                .map(|_| ());
             to_delete.push(ret_addr);
         }
 
-        let stop_reason = self.continue_execution()?;
+        // temporary breakpoints must be removed on every exit, including failures
+        let stop_reason = install_result.and_then(|_| self.continue_execution());
 
         to_delete
             .into_iter()
             .try_for_each(|addr| self.remove_breakpoint(Address::Relocated(addr)).map(|_| ()))?;
+
+        let stop_reason = stop_reason?;
 
         // hooks already called at [`Self::continue_execution`], so use `quite` opt
         match stop_reason {
